@@ -514,6 +514,19 @@ def selftest():
         e["amt"] = 1
     ok2 &= corrupt("NotEnoughFunds amount lowered to an affordable one", affordable, lower)
     ok2 &= corrupt("Release event (dropped hookless observation)", lambda e: e["op"] == "Release", lambda e: e.__setitem__("op", "Obs") or e.update(sp=0, conf=0, imm=0, unc=0, list=[]))
+    # gated pairs: a Par block whose two calls took the same output has no linearization
+    vg = vlib.Verdict("C07-selftest"); vg.findings = []
+    vlib.go_run(binary, "TestGated", wd, env={"VERIF_GATE_CASE": "fresh/FundV2@cm.PoolTransactions#1/FundV2", "VERIF_SHARDS": 1})
+    pg = os.path.join(wd, "walletfund-g-0.ndjson")
+    gl = [json.loads(x) for x in open(pg).read().splitlines()]
+    k = next(i for i, e in enumerate(gl) if e["op"] == "Par")
+    rej_good = check([json.dumps(e, separators=(",", ":")) for e in gl], "par_good")[0]
+    gl[k + 2]["d"][0]["ins"] = list(gl[k + 1]["d"][0]["ins"])
+    rej_bad = check([json.dumps(e, separators=(",", ":")) for e in gl], "par_shared")[0]
+    ok4 = rej_good == 0 and rej_bad == 1
+    log("selftest 4 (gated pair: recorded run accepted in some order: %s; both calls given the same input -> no linearization: %s): %s"
+        % (rej_good == 0, rej_bad == 1, "ok" if ok4 else "FAILED"))
+    os.remove(pg)
     # named deviations must violate the invariants in TLC
     ok3 = True
     for cfg, inv in (("WalletFund_dev_views.cfg", "ViewsAgree"), ("WalletFund_dev_dup.cfg", "Conservation"),
@@ -522,4 +535,4 @@ def selftest():
         good3 = x.exit != 0 and x.violated == inv
         log("selftest 3 (%s: TLC reports %s violated: %s): %s" % (cfg, inv, x.violated, "ok" if good3 else "FAILED"))
         ok3 = ok3 and good3
-    return 0 if ok1 and ok2 and ok3 else 2
+    return 0 if ok1 and ok2 and ok3 and ok4 else 2
